@@ -58,7 +58,7 @@ def from_all_sources(data_text, data_bytes=None):
     from mosromgr.mostypes import MosFile
     raw = data_bytes if data_bytes is not None else data_text.encode('utf-8')
     res = {}
-    impl.apply_cfg(impl.cfg_for(raw[:200].hex()))
+    impl.apply_cfg(impl.cfg_for(raw.hex()))
     tmp = tempfile.mkdtemp(prefix='mrm-src-')
     try:
         path = os.path.join(tmp, 'doc.mos.xml')
@@ -287,6 +287,9 @@ def replay_c18(pid, fl):
 
 # ---- C19 -----------------------------------------------------------------------------------------
 
+VERIF_DIR = os.path.dirname(os.path.dirname(os.path.abspath(__file__)))
+
+
 def run_cli(argv):
     """mosromgr.cli.main(argv) in-process -> (stdout, stderr, return value | 'SystemExit:n')"""
     from mosromgr import cli
@@ -328,6 +331,9 @@ def file_pool(rng):
     pool['story1.mos.xml'] = ('xml', TJ.to_text(B.story_delete(['A'], message_id='82')))
     pool['st*ry1.mos.xml'] = ('xml', TJ.to_text(B.ready_to_air(message_id='83')))
     pool['story?.mos.xml'] = ('xml', TJ.to_text(B.story_move(['A', 'B'], message_id='84')))
+    pool['@studio-b.mos.xml'] = ('xml', TJ.to_text(B.story_append([B.story('AT')], message_id='85')))
+    pool['.hidden.mos.xml'] = ('xml', TJ.to_text(B.ready_to_air(message_id='86')))
+    pool['name with blanks é.mos.xml'] = ('xml', TJ.to_text(B.story_delete(['A'], message_id='87')))
     pool['notxml.txt'] = ('notxml', 'this is not xml <')
     pool['empty.xml'] = ('notxml', '')
     pool['unknown.xml'] = ('xml', '<mos><mosID>x</mosID><somethingElse/></mos>')
@@ -347,11 +353,16 @@ def materialise(pool, root):
             os.makedirs(p, exist_ok=True)
 
 
-def model_files(pool, names, root):
+def spell_path(root, n, how):
+    """The same file named the ways a command line names files: absolute, bare relative, ./relative."""
+    return os.path.join(root, n) if how == 'abs' else (n if how == 'bare' else './' + n)
+
+
+def model_files(pool, names, root, how='abs'):
     out = []
     for n in names:
         spec = pool[n]
-        path = os.path.join(root, n)
+        path = spell_path(root, n, how)
         if spec[0] == 'xml':
             out.append([path, TJ.parse(spec[1])])
         else:
@@ -377,6 +388,7 @@ def run_c19(tier, seed):
     oc = Outcome('C19')
     rng = random.Random(seed * 71 + 4)
     root = tempfile.mkdtemp(prefix='mrm-cli-')
+    cwd0 = os.getcwd()
     try:
         pool = file_pool(rng)
         materialise(pool, root)
@@ -508,7 +520,8 @@ def run_c19(tier, seed):
                                                     'files': {'status': rf, 'stdout': sf[:600]}}})
         reqs = []
         for cmd, lst, opts in jobs:
-            r = {'op': 'cli', 'cmd': cmd, 'files': model_files(pool, lst, root)}
+            how = opts.setdefault('paths', ('abs', 'bare', 'dot')[len(reqs) % 3] if all(os.sep not in n for n in lst) else 'abs')
+            r = {'op': 'cli', 'cmd': cmd, 'files': model_files(pool, lst, root, how)}
             if cmd == 'merge':
                 r['incomplete'] = opts['incomplete']
                 r['non_strict'] = opts['non_strict']
@@ -517,11 +530,12 @@ def run_c19(tier, seed):
                     r['outfile_writable'] = outfile_writable(r['outfile'])
             reqs.append(r)
         resps = lean.run_batch(reqs)
+        os.chdir(root)                      # relative spellings are relative to the directory holding the files
         for (cmd, lst, opts), r in zip(jobs, resps):
             oc.evaluations += 1
             oc.in_domain += 1
             oc.count('cmd:' + cmd)
-            paths = [os.path.join(root, n) for n in lst]
+            paths = [spell_path(root, n, opts.get('paths', 'abs')) for n in lst]
             rec = {'kind': 'cli', 'cmd': cmd, 'files': [[n] + list(pool[n]) for n in lst], 'opts': opts, 'label': f'{cmd} {" ".join(lst)} {opts}'}
             if cmd in ('detect', 'inspect'):
                 so, se, rv = run_cli([cmd, '-f'] + paths)
@@ -609,6 +623,7 @@ def run_c19(tier, seed):
         if len(oc.samples) < 1:
             oc.samples.append({'files': names[:8], 'example': 'detect -f ' + ' '.join(names[:3])})
     finally:
+        os.chdir(cwd0)
         shutil.rmtree(root, ignore_errors=True)
     oc.rule = ('file lists mixing valid messages of every class, a completed running order, non-XML, unknown XML, a missing path '
                'and a directory, for detect and inspect; merge over history collections (complete, with an intruder, reversed) x '
@@ -621,8 +636,9 @@ def replay_c19(pid, fl):
     try:
         pool = {f[0]: tuple(f[1:]) for f in fl['files']}
         materialise(pool, root)
-        paths = [os.path.join(root, f[0]) for f in fl['files']]
         opts = fl['opts']
+        paths = [spell_path(root, f[0], opts.get('paths', 'abs')) for f in fl['files']]
+        os.chdir(root)
         if fl['cmd'] == 'merge':
             outp = os.path.join(root, opts['outfile']) if opts.get('outfile') else None
             argv = ['merge', '-f'] + paths + (['-o', outp] if outp else []) + (['-i'] if opts['incomplete'] else []) + (['-n'] if opts['non_strict'] else [])
@@ -631,6 +647,7 @@ def replay_c19(pid, fl):
         so, se, rv = run_cli(argv)
         print(json.dumps({'stdout': so[:2000], 'stderr': se[:1000], 'return': rv}, indent=1))
     finally:
+        os.chdir(VERIF_DIR)
         shutil.rmtree(root, ignore_errors=True)
     print('re-run `run.py check C19` to evaluate the recorded case against the model and the library')
     from . import registry
